@@ -1077,9 +1077,20 @@ EXTENT_TYPES = ["SPARSE", "ZERO", "FLAT", "VMFS", "VMFSSPARSE", "VMFSRDM", "VMFS
 WS_END = " \t\r\x0b\x0c\x1c\x1d\x1e\x1f\x85\xa0\u1680\u2000\u2003\u200a\u2028\u2029\u202f\u205f\u3000"
 
 
+LINEISH = "\x0b\x0c\x1c\x1d\x1e\x85\u2028\u2029"     # line boundaries for str.splitlines(), not for the format ("\n" only)
+
+
+def lineish(rng, v, p=0.12):
+    """now and then one character in the middle of a value or file name is one that some line splitters break at"""
+    if len(v) >= 3 and rng.chance(p):
+        i = rng.randrange(1, len(v) - 1)
+        return v[:i] + rng.pick(LINEISH) + v[i + 1:]
+    return v
+
+
 def d_value(rng, n):
     while True:
-        v = rand_text(rng, n, extra=" =#/\\:;,()[]{}'")
+        v = lineish(rng, rand_text(rng, n, extra=" =#/\\:;,()[]{}'"))
         if not v or (v[0] not in WS_END + '"' and v[-1] not in WS_END + '"'):
             return v
 
@@ -1117,7 +1128,7 @@ def d_gen(rng, tier, max_lines=40):
              "filename": None, "start": None, "partition": None, "device": None,
              "sep": " ", "lead0": rng.chance(0.1)}
         if ty != "ZERO" or rng.chance(0.2):
-            fn = rng.pick(["disk-s001.vmdk", "my disk-flat.vmdk", rand_text(rng, rng.randint(1, 30), extra=" =#'()")])
+            fn = rng.pick(["disk-s001.vmdk", "my disk-flat.vmdk", lineish(rng, rand_text(rng, rng.randint(1, 30), extra=" =#'()"), 0.3)])
             e["filename"] = fn
             if ty in ("FLAT", "VMFS", "VMFSRAW", "VMFSRDM") or rng.chance(0.2):
                 e["start"] = rand_int(rng, 32)
